@@ -796,3 +796,246 @@ class CheckUnnormalizationCapabilityCustomDOE(Contract):
 
     def ensures(self, c):
         return ds_kept(c.old.design_space, c.new.design_space)
+
+
+# ---------------------------------------------------------------------------- stratified OpenTURNS designs: number of levels
+from pyvc.plug_c14 import pow2  # noqa: E402
+
+OTA = "gemseo.algos.doe.openturns._algos."
+STRAT = OTA + "base_ot_stratified_doe.BaseOTStratifiedDOE"
+AXIAL, FACTORIAL, COMPOSITE = OTA + "ot_axial_doe.OTAxialDOE", OTA + "ot_factorial_doe.OTFactorialDOE", OTA + "ot_composite_doe.OTCompositeDOE"
+
+# points added per level (documented and checked natively on openturns.Axial / Factorial / Composite: a design with L levels in
+# dimension d has 1 + weight(d) * L points: the centre, and per level 2 d axial points / 2^d corner points / both)
+STRAT_WEIGHTS = {AXIAL: lambda d: 2 * d, FACTORIAL: lambda d: pow2(d), COMPOSITE: lambda d: 2 * d + pow2(d)}
+
+
+def strat_count(cls, d, levels):
+    """Documented number of points of the stratified design of class `cls` with `levels` levels in dimension d."""
+    return 1 + STRAT_WEIGHTS[cls](d) * levels
+
+
+class _ComputeNLevels(Contract):
+    """The largest number of levels whose documented point count does not exceed n_samples; ValueError when even one level does not fit."""
+
+    prop = ("C14",)
+    c14 = True
+    cls = None
+    params = {"n_samples": TInt, "dimension": TInt}
+    returns = TInt
+
+    @property
+    def raises(self):
+        return {"ValueError": lambda c: strat_count(self.cls, c.old.dimension, 1) > c.old.n_samples}
+
+    def requires(self, c):
+        # call site (BaseOTStratifiedDOE.generate_samples): only called when n_samples > 0; the dimension of a design space under a DOE is >= 1
+        return [("positive-number-of-samples", c.old.n_samples > 0), ("dimension-at-least-one", c.old.dimension >= 1)]
+
+    def ensures(self, c):
+        n, d, L = c.old.n_samples, c.old.dimension, c.result
+        return [("at-least-one-level", L >= 1),
+                ("documented-count-never-exceeds-the-request", strat_count(self.cls, d, L) <= n),
+                ("largest-such-number-of-levels", strat_count(self.cls, d, L + 1) > n)]
+
+
+@register
+class AxialNLevels(_ComputeNLevels):
+    targets = (AXIAL + "._compute_n_levels",)
+    cls = AXIAL
+
+
+@register
+class FactorialNLevels(_ComputeNLevels):
+    targets = (FACTORIAL + "._compute_n_levels",)
+    cls = FACTORIAL
+
+
+@register
+class CompositeNLevels(_ComputeNLevels):
+    targets = (COMPOSITE + "._compute_n_levels",)
+    cls = COMPOSITE
+
+
+# ---------------------------------------------------------------------------- wrapper libraries: what is handed to the third-party sampler
+from pyvc.plug_c14 import TP_GHOSTS, int_of_val, random_state, tp_samples  # noqa: E402
+from pyvc.values import val_none, val_of_int  # noqa: E402
+
+OTLIB = "gemseo.algos.doe.openturns.openturns.OpenTURNS"
+SCIPYLIB = "gemseo.algos.doe.scipy.scipy_doe.SciPyDOE"
+PYDOELIB = "gemseo.algos.doe.pydoe.pydoe.PyDOELibrary"
+for _lib in (OTLIB, SCIPYLIB, PYDOELIB):
+    schema(_lib, dict(C.class_schema(BASE + "#c14")))
+TP_MODIFIES = tuple(f"ghost:{g}" for g in TP_GHOSTS)
+
+
+def tp_ghost(c, name, new=True):
+    return (c.new_ghost if new else c.old_ghost)("c14_tp_" + name, TP_GHOSTS["c14_tp_" + name])
+
+
+def seed_of_get_seed(default_seed, given_is_none, given):
+    """Seeder.get_seed (contract GetSeed): a given seed unchanged (0 included), otherwise the incremented default seed."""
+    return z3.If(given_is_none, default_seed + 1, given)
+
+
+def third_party_call(c, algo, dim, n, seed, opts_clauses):
+    """Exactly one call of the third-party sampler, with these arguments; the result is what it returned."""
+    return [("exactly-one-sampler-call", tp_ghost(c, "calls") == tp_ghost(c, "calls", new=False) + 1),
+            ("algorithm-forwarded", tp_ghost(c, "algo") == algo),
+            ("dimension-forwarded-unchanged", tp_ghost(c, "dim") == dim),
+            ("n-samples-forwarded-unchanged", tp_ghost(c, "n") == n),
+            ("seed-is-exactly-get-seed-of-the-given-seed", tp_ghost(c, "seed") == seed)] + opts_clauses
+
+
+def returned_what_the_sampler_returned(c):
+    return ("returns-what-the-sampler-returned",
+            arr2(c.result) == tp_samples(tp_ghost(c, "algo"), tp_ghost(c, "dim"), tp_ghost(c, "n"), tp_ghost(c, "seed"), tp_ghost(c, "opts")))
+
+
+@register
+class OpenTURNSGenerateUnitSamples(Contract):
+    """The OpenTURNS random generator is seeded with exactly Seeder.get_seed(seed) (a given seed unchanged, 0 included; None -> incremented default
+    seed); n_samples, the dimension and the remaining settings are forwarded unchanged; the result is what the sampler returned."""
+
+    targets = (OTLIB + "._generate_unit_samples",)
+    prop = ("C14",)
+    numpy = "precise"
+    c14 = True
+    params = {"design_space": DSO, "n_samples": TInt, "seed": TOpt(TInt), "settings": KW}
+    returns = F2
+    modifies = ("self._seeder",) + TP_MODIFIES
+
+    def ensures(self, c):
+        me0, me1 = c.old.self, c.new.self
+        seed = c.arg("seed")
+        expected = seed_of_get_seed(me0._seeder.default_seed, seed.ty.is_none(seed.term), seed.ty.dt.get(seed.term))
+        return third_party_call(c, me0._algo_name, c.old.design_space.dimension, val_of_int(c.old.n_samples), expected,
+                                [("settings-forwarded-unchanged", tp_ghost(c, "opts") == kw_term(c.old.settings))]) + \
+            [returned_what_the_sampler_returned(c), ("default-seed-incremented-exactly-once", me1._seeder.default_seed == me0._seeder.default_seed + 1)]
+
+
+SCIPY_OPTION_NAMES = ("bits", "centered", "hypersphere", "ncandidates", "optimization", "radius", "scramble", "strength")
+
+
+def setting_is_optional_int(d, name):
+    v = d.vals[str_lit(name)]
+    return z3.And(d.member[str_lit(name)], z3.Or(v == val_none, v == val_of_int(int_of_val(v))))
+
+
+def seed_from_setting(default_seed, v):
+    return seed_of_get_seed(default_seed, v == val_none, int_of_val(v))
+
+
+@register
+class SciPyGenerateUnitSamples(Contract):
+    """The SciPy engine is built for the dimension of the design space with seed = exactly Seeder.get_seed(settings["seed"]) and with SciPy options taken
+    unchanged from the settings; settings["n_samples"] is handed unchanged to engine.random; the result is what it returned."""
+
+    targets = (SCIPYLIB + "._generate_unit_samples",)
+    prop = ("C14",)
+    numpy = "precise"
+    c14 = True
+    params = {"design_space": DSO, "settings": KW}
+    returns = F2
+    modifies = ("self._seeder",) + TP_MODIFIES
+
+    def requires(self, c):
+        d = c.old.settings
+        # validated settings (pydantic model_dump): every field of the settings model is present; seed: int | None
+        return [("seed-setting-is-an-optional-int", setting_is_optional_int(d, "seed")), ("n-samples-setting-present", d.member[str_lit("n_samples")])]
+
+    def ensures(self, c):
+        me0, me1 = c.old.self, c.new.self
+        d = c.old.settings
+        opts = TermDictU(KW, tp_ghost(c, "opts"))
+        k = z3.Const("k!so", TStr.sort())
+        return third_party_call(c, me0._algo_name, c.old.design_space.dimension, d.vals[str_lit("n_samples")], seed_from_setting(me0._seeder.default_seed, d.vals[str_lit("seed")]),
+                                [("options-are-settings-forwarded-unchanged", z3.ForAll([k], z3.Implies(opts.member[k], z3.And(d.member[k], opts.vals[k] == d.vals[k])))),
+                                 ("only-scipy-options", z3.ForAll([k], z3.Implies(opts.member[k], z3.Or(*[k == str_lit(n) for n in SCIPY_OPTION_NAMES]))))]) + \
+            [returned_what_the_sampler_returned(c), ("default-seed-incremented-exactly-once", me1._seeder.default_seed == me0._seeder.default_seed + 1)]
+
+
+class TermDictU:
+    """Read access to an embedded unordered dict term."""
+
+    def __init__(self, ty, term):
+        self.member, self.vals, self.n = (ty.acc(i)(term) for i in range(3))
+
+
+FULLFACT_CLS = "gemseo.algos.doe.pydoe.pydoe_full_factorial_doe.PyDOEFullFactorialDOE"
+schema(FULLFACT_CLS, {})
+fullfact_samples = z3.Function("c14_pydoe_fullfact_samples", z3.IntSort(), KW.sort(), F2.sort())
+
+
+@register
+class FullFactorialGenerateSamplesAbstract(Contract):
+    targets = ("gemseo.algos.doe.base_full_factorial_doe.BaseFullFactorialDOE.generate_samples",)
+    variant = "c14"
+    prop = ("C14",)
+    self_schema = FULLFACT_CLS
+    numpy = "precise"
+    params = {"n_samples": TVal, "dimension": TInt, "settings": KW}
+    returns = F2
+    raises = {"ValueError": None}
+    trusted = True
+    description = ("assumed: the full-factorial DOE (levels deduced from n_samples ** (1 / dimension) in floating point, pyDOE3.fullfact) is a deterministic "
+                   "function of the dimension and the settings; its level arithmetic (real powers) is not under contract")
+
+    def ensures(self, c):
+        return [("deterministic", arr2(c.result) == fullfact_samples(c.old.dimension, kw_term(c.old.settings)))]
+
+
+@register
+class PyDOEGenerateUnitSamples(Contract):
+    """PYDOE_LHS: pyDOE's lhs gets random_state = RandomState(exactly Seeder.get_seed(settings["random_state"])), samples = settings["n_samples"], every
+    other setting unchanged, and its result is returned.  Other pyDOE functions: called with the dimension and the unchanged settings, result
+    mapped from [-1, 1] to [0, 1] entry by entry ((x + 1) / 2); the Seeder is not touched."""
+
+    targets = (PYDOELIB + "._generate_unit_samples",)
+    prop = ("C14",)
+    numpy = "precise"
+    c14 = True
+    callee_variants = {"gemseo.algos.doe.base_full_factorial_doe.BaseFullFactorialDOE.generate_samples": "c14"}
+    params = {"design_space": DSO, "settings": KW}
+    returns = F2
+    modifies = ("self._seeder", "settings") + TP_MODIFIES
+    raises = {"ValueError": lambda c: c.old.self._algo_name == str_lit("PYDOE_FULLFACT")}
+    raises_exact = False
+
+    def requires(self, c):
+        d = c.old.settings
+        lhs = c.old.self._algo_name == str_lit("PYDOE_LHS")
+        ff = c.old.self._algo_name == str_lit("PYDOE_FULLFACT")
+        # validated settings (pydantic model_dump): every field of the settings model of the algorithm is present
+        return [("lhs:random-state-setting-is-an-optional-int", z3.Implies(lhs, setting_is_optional_int(d, "random_state"))),
+                ("lhs:n-samples-setting-present", z3.Implies(lhs, z3.And(d.member[str_lit("n_samples")], z3.Not(d.member[str_lit("samples")])))),
+                ("fullfact:settings-present", z3.Implies(ff, z3.And(d.member[str_lit("n_samples")], z3.Not(d.member[str_lit("dimension")]))))]
+
+    def ensures(self, c):
+        me0, me1 = c.old.self, c.new.self
+        d = c.old.settings
+        algo = me0._algo_name
+        lhs, ff = algo == str_lit("PYDOE_LHS"), algo == str_lit("PYDOE_FULLFACT")
+        other = z3.And(z3.Not(lhs), z3.Not(ff))
+        opts = TermDictU(KW, tp_ghost(c, "opts"))
+        k = z3.Const("k!po", TStr.sort())
+        r, i = z3.Int("r!po"), z3.Int("i!po")
+        rs, sm, ns = str_lit("random_state"), str_lit("samples"), str_lit("n_samples")
+        tp = tp_samples(tp_ghost(c, "algo"), tp_ghost(c, "dim"), tp_ghost(c, "n"), tp_ghost(c, "seed"), tp_ghost(c, "opts"))
+        res = c.result
+        seed = seed_from_setting(me0._seeder.default_seed, d.vals[rs])
+        called = z3.And(tp_ghost(c, "calls") == tp_ghost(c, "calls", new=False) + 1, tp_ghost(c, "algo") == algo, tp_ghost(c, "dim") == c.old.design_space.dimension)
+        return [
+            ("pydoe-function-called-once-with-the-dimension", z3.Implies(z3.Not(ff), called)),
+            ("lhs:seed-is-exactly-get-seed-of-the-given-seed", z3.Implies(lhs, z3.And(opts.member[rs], opts.vals[rs] == random_state(seed)))),
+            ("lhs:n-samples-forwarded-unchanged", z3.Implies(lhs, z3.And(opts.member[sm], opts.vals[sm] == d.vals[ns], z3.Not(opts.member[ns])))),
+            ("lhs:other-settings-forwarded-unchanged", z3.Implies(lhs, z3.ForAll([k], z3.Implies(z3.And(k != rs, k != sm, k != ns),
+                                                                                                 z3.And(opts.member[k] == d.member[k], z3.Implies(d.member[k], opts.vals[k] == d.vals[k])))))),
+            ("lhs:returns-what-the-sampler-returned", z3.Implies(lhs, arr2(res) == tp)),
+            ("lhs:default-seed-incremented-exactly-once", z3.Implies(lhs, me1._seeder.default_seed == me0._seeder.default_seed + 1)),
+            ("others:settings-forwarded-unchanged", z3.Implies(other, tp_ghost(c, "opts") == kw_term(d))),
+            ("others:shape", z3.Implies(other, z3.And(res.obj.shape[0] == F2.dim(tp, 0), res.obj.shape[1] == F2.dim(tp, 1)))),
+            ("others:scaled-from-[-1,1]-to-[0,1]", z3.Implies(other, z3.ForAll([r, i], z3.Implies(z3.And(0 <= r, r < F2.dim(tp, 0), 0 <= i, i < F2.dim(tp, 1)),
+                                                                                                   el2(res, r, i) == (z3.Select(F2.els(tp), r, i) + 1) / 2)))),
+            ("no-seeding-without-random-state", z3.Implies(z3.Not(lhs), me1._seeder.default_seed == me0._seeder.default_seed)),
+        ]
